@@ -462,6 +462,9 @@ pub struct Scanner<'input, T> {
     /// [`Possible`]: ImplicitMappingState::Possible
     /// [`Inside`]: ImplicitMappingState::Inside
     implicit_flow_mapping_states: Vec<ImplicitMappingState>,
+    /// For each flow collection we are in: whether it is a mapping, and the value
+    /// [`Self::flow_mapping_started`] had when it was opened (restored when it is closed).
+    flow_collections: Vec<(bool, bool)>,
     buf_leading_break: String,
     buf_trailing_breaks: String,
     buf_whitespaces: String,
@@ -517,6 +520,7 @@ impl<'input, T: Input> Scanner<'input, T> {
             leading_whitespace: true,
             flow_mapping_started: false,
             implicit_flow_mapping_states: vec![],
+            flow_collections: vec![],
 
             buf_leading_break: String::new(),
             buf_trailing_breaks: String::new(),
@@ -1453,9 +1457,12 @@ impl<'input, T: Input> Scanner<'input, T> {
         let start_mark = self.mark;
         self.skip_non_blank();
 
-        if tok == TokenType::FlowMappingStart {
-            self.flow_mapping_started = true;
-        } else {
+        // `flow_mapping_started` only describes the innermost flow collection.
+        let is_mapping = tok == TokenType::FlowMappingStart;
+        self.flow_collections
+            .push((is_mapping, self.flow_mapping_started));
+        self.flow_mapping_started = is_mapping;
+        if !is_mapping {
             self.implicit_flow_mapping_states
                 .push(ImplicitMappingState::Possible);
         }
@@ -1477,6 +1484,10 @@ impl<'input, T: Input> Scanner<'input, T> {
             self.end_implicit_mapping(self.mark);
             // We are out exiting the flow sequence, nesting goes down 1 level.
             self.implicit_flow_mapping_states.pop();
+        }
+        // Back in the enclosing collection (if any).
+        if let Some((_, saved)) = self.flow_collections.pop() {
+            self.flow_mapping_started = saved;
         }
 
         let start_mark = self.mark;
@@ -1503,6 +1514,10 @@ impl<'input, T: Input> Scanner<'input, T> {
         self.allow_simple_key();
 
         self.end_implicit_mapping(self.mark);
+        // In a flow sequence, an explicit `? key : value` entry ends with the entry.
+        if let Some((false, _)) = self.flow_collections.last() {
+            self.flow_mapping_started = false;
+        }
 
         let start_mark = self.mark;
         self.skip_non_blank();
